@@ -436,6 +436,14 @@ def check_naming(ctx, rep, funcs, rule=RULE + '.name'):
         # only parameters that the encoding mentions at all are components (a hint parameter may be unused)
         comps = {p: p for p in params}
         en = Encoder(ctx, g, comps).enc(e.args[0])
+        # only encodings OF STATES are names of composite states; a generator of fresh names (hint + counter) is judged by
+        # R-FRESH, its text need not determine hint and counter
+        ann = {p.arg: (u(p.annotation) if p.annotation is not None else None) for p in g.pos_params}
+        mentioned = {x.id for x in ast.walk(e.args[0]) if isinstance(x, ast.Name)} & set(params)
+        if mentioned and all(ann.get(p) is not None and 'State' not in ann[p] for p in mentioned):
+            continue
+        if not mentioned:
+            continue
         n += 1
         if en.kind == NOT:
             rep.violates(rule, g, e, 'the name of a composite state must identify it, but {}: two different composite states get the same name and are merged'.format(en.reason))
